@@ -27,6 +27,8 @@ def make_probes(case, obs, want, shim):
             pr["overrides"] = x
     if "entries" in want:
         pr["entries"] = P.probe_entries(out, shim)
+    if "wgpu" in want:
+        pr["wgpu"] = P.probe_wgpu_validate(out)
     if "encase" in want and case.get("S") and case.get("opts", {}).get("enc"):
         S = case["S"]
         emitted = [st["name"] for st in out.get("structs", []) if any("encase::ShaderType" in d for d in st.get("derives", []))]
@@ -79,8 +81,8 @@ def run_compiled(cases, tag, flavor, want, batch_size=150, keep=None):
             rt_by_case.setdefault(e.get("case"), []).append(e)
         for cid, m in mods.items():
             o = obs_by_id[cid]
-            classes = sorted(set(B.classify(e) for e in m.errors))
             import re as _re
+            classes = sorted(set(B.classify(e) for e in m.errors))
             alltext = " ".join(e["message"] + " " + e.get("rendered", "") for e in m.errors)
             flags = [t for t, rx in (("entry", r"ENTRY_|_entry\b|WORKGROUP_SIZE|VertexEntry|FragmentEntry|_pipeline\b"), ("bindgroup", r"BindGroup|bind_groups|LAYOUT_DESCRIPTOR"),
                                      ("override", r"OverrideConstants|\bentries\b"), ("vertex", r"VERTEX_ATTRIBUTES|vertex_buffer_layout"), ("const", r"\bconst\b")) if _re.search(rx, alltext)]
@@ -104,6 +106,16 @@ def run_compiled(cases, tag, flavor, want, batch_size=150, keep=None):
                             "errors": [e["message"][:300] for e in m.errors[:4]],
                             "probe_fail": [{"probe": pn, "code": es[0].get("code") or "?", "message": es[0]["message"][:300]} for pn, es in m.probe_errors.items()]}
             o["rt"] = rt_by_case.get(cid, [])
+            for e in o["rt"]:
+                if e.get("ev") == "wgpu.result" and e.get("err"):
+                    if "TEXTURE_ADAPTER_SPECIFIC_FORMAT_FEATURES" in e["err"] and e.get("device") == "std":
+                        # the colour-target device lacks the feature by construction: outside the domain
+                        e["ev"] = "wgpu.skipped"
+                        e["skipped"] = e.pop("err")[:200]
+                        continue
+                    e["binding_related"] = bool(_re.search(r"(?i)binding|bind group|visib|texture class|address space|sampler|filter|storage class|not available in the pipeline layout", e["err"]))
+                    e["vertex_related"] = bool(_re.search(r"(?i)vertex|attribute|stride|location|input", e["err"])) and not e["binding_related"]
+                    e["err"] = e["err"][:400]
     log("[compile] %d modules in %d %s batch(es), %.1fs" % (len(ok_ids), nb, flavor, time.time() - t0))
     tp = trace + ".compiled"
     with open(tp, "w") as f:
